@@ -54,9 +54,9 @@ Proof.
   assert (Hcr : forall e, In e D -> (ecr (fe e) < nv)%nat).
   { intros e He. destruct Valid as [Hacc _]. apply (accepted_cr vals _ _ (table_wfTD vals D Hacc) e). apply -> in_rev. exact He. }
   assert (Estart : start 1 vals = start 1 V') by (unfold start; rewrite EV, Can; reflexivity).
-  assert (Eops : abft_ops lam vals D = abft_ops (fun e' => lam (upe e')) V' D').
+  assert (Eops : abft_ops 1 lam vals D = abft_ops 1 (fun e' => lam (upe e')) V' D').
   { unfold abft_ops, D'. rewrite flat_map_concat_map, flat_map_concat_map, map_map. f_equal. apply map_ext_in. intros e He.
-    assert (Eae : to_aevent (fun e' => lam (upe e')) V' (pe vals e) = to_aevent lam vals e).
+    assert (Eae : to_aevent 1 (fun e' => lam (upe e')) V' (pe vals e) = to_aevent 1 lam vals e).
     { unfold to_aevent. cbn [pe fe ffr eid ecr eseq epar]. change (pe vals e) with (pe vals e).
       fold (pe vals e). rewrite (upe_pe e (Hcr e He)). f_equal. unfold vid.
       rewrite (vid_vals' vals _ (pos_lt nv ord Hperm _ (Hcr e He))), (unpos_pos nv ord Hperm _ (Hcr e He)). reflexivity. }
@@ -71,7 +71,7 @@ Proof.
   assert (NDD : NoDup D1) by (apply (NoDup_map_inv (fun e => eid (fe e))); exact ND).
   pose proof (NoDup_incl_length NDD I) as Len.
   split; [exact R|]. split; [exact T|]. split; [|lia].
-  intros e He (ep & lm & c & t & Bc & S & E). apply (F e (I e He)). exists ep, lm, c, t. split; [lia | auto].
+  intros e He (ep0 & lm & c & t & Bc & S & E). apply (F e (I e He)). exists ep0, lm, c, t. split; [lia | auto].
 Qed.
 
 Theorem link_refines_raw cap lam : impl_refines_spec_on link_side_raw (abft_run cap lam).
